@@ -153,7 +153,13 @@ def run(pid, tier, *, groups, judged, ncases, methods=("collect",), seed_salt=0,
         if f not in judged:
             unjudged += 1
             continue
-        rep.violation(payload, finding=classify(info, verdict) if classify else None)
+        fid = classify(info, verdict) if classify else None
+        if fid is None and info.get("adjacent_refs") and f in ("printed", "final_printed"):
+            fid = "C16-adjacent-references"
+        if fid is not None and fid.split("-")[0] != pid:
+            unjudged += 1          # a listed finding of another property (reported there)
+            continue
+        rep.violation(payload, finding=fid)
     for r in recs:
         info = infos[r["tid"]]
         if not info.get("cells_ok", True) and "returned" in judged:
